@@ -185,6 +185,12 @@ fn run_conn(sh: &Shared, c: u32, plan: Plan) -> Option<std::net::TcpStream> {
         }
         Plan::Waiting(how) => {
             sh.req(r1, c, "wait");
+            if sh.n_stay >= 200 {
+                // the scenario with many handlers in flight: the clients that will leave come
+                // only once all those handlers are running (the point is what happens to a
+                // request that arrives on top of that load)
+                sh.wait_stays_started();
+            }
             let _ = send_logged(ctx, &mut s, &get(&format!("/w/{}", r1)), Ev::ReqSent(c, r1));
             disconnect_while_waiting(sh, s, c, r1, how)
         }
